@@ -222,6 +222,10 @@ type RollbackSpec struct {
 	// May repeat every SpillAfter pages if MultiSpill.
 	SpillAfter int    `json:"spill_after,omitempty"`
 	MultiSpill bool   `json:"multi_spill,omitempty"`
+	// SpillBeyond > 0: the first spill also writes that many freshly allocated
+	// pages beyond NewPageN to the database file (the transaction grows the file
+	// and later frees those pages again, so the commit cuts them off).
+	SpillBeyond uint32 `json:"spill_beyond,omitempty"`
 	NRec       string `json:"nrec,omitempty"`    // "" (synced count) | "nosync" (0xFFFFFFFF, single segment)
 	Outcome    string `json:"outcome"`           // commit | rollback | lockonly
 	Mode       string `json:"mode"`              // delete | truncate | persist
@@ -388,7 +392,28 @@ func (c *Conn) RunRollbackTx(spec RollbackSpec) (res TxResult) {
 		}
 		return nil
 	}
+	beyondDone := false
+	wroteBeyond := false
 	flushPages := func() error {
+		if spec.SpillBeyond > 0 && !beyondDone && spec.Outcome != "lockonly" {
+			beyondDone = true
+			hi := spec.NewPageN
+			if origPages > hi {
+				hi = origPages
+			}
+			for q := hi + 1; q <= hi+spec.SpillBeyond; q++ {
+				if q == lock {
+					continue
+				}
+				if err := d.step(fmt.Sprintf("db write page %d (beyond commit)", q)); err != nil {
+					return err
+				}
+				if err := c.dbf.WriteAt(c.Owner, d.RandPage(), int64(q-1)*int64(d.PageSize)); err != nil {
+					return err
+				}
+				wroteBeyond = true
+			}
+		}
 		for _, p := range pending {
 			if err := d.step(fmt.Sprintf("db write page %d", p)); err != nil {
 				return err
@@ -538,7 +563,7 @@ func (c *Conn) RunRollbackTx(spec RollbackSpec) (res TxResult) {
 	if spec.WALHeader {
 		d.WALMode = true
 	}
-	if spec.NewPageN < origPages {
+	if spec.NewPageN < origPages || wroteBeyond {
 		if err := d.step("late truncate"); err != nil {
 			return fail("late-trunc", err)
 		}
